@@ -91,6 +91,7 @@ class Func:
         self.derived = j.get("derived", False)
         self.span = j["span"]
         self.ret_ty = j.get("ret_ty")
+        self.generic_params = j.get("generic_params") or []
         m = j["mir"]
         self.arg_count = m["arg_count"]
         self.locals = m["locals"]
